@@ -1,8 +1,10 @@
 (* C19 — JSON serialisation round-trips and is valid JSON.  Property theorems only.
-   FULL statement (NOT true of the code: C19-F1, non-ASCII strings; proved so far for flat objects of scalar fields, checked by
-   correspondence and the independent-parser oracle for nested objects and typed arrays):
-     for every value v of the supported model:  round_trip v = Some (t, RtOk (norm v)). *)
-From Rws Require Import Str Utf8 Num RespParse Json JsonArray Server JsonRt C19Lemmas C19Proof.
+   FULL statement (NOT true of the code: C19-F1, non-ASCII strings):
+     for every value v of the supported model:  round_trip v = Some (t, RtOk (norm v)).
+   PROVED for every tree of the domain tree_ok (C19_nested_round_trip: objects of any depth whose fields are strings of printable ASCII,
+   booleans, integers, floats, null, typed arrays of every element kind, and objects again) and for every top-level typed array; arrays
+   of objects: one representative tree by evaluation, correspondence and the independent-parser oracle. *)
+From Rws Require Import Str Utf8 Num RespParse Json JsonArray Server JsonRt C19Lemmas C19Proof C19Nested.
 Open Scope N_scope.
 
 (* refuted on printable non-ASCII text: the object scanner and the array splitter return an error on their own output *)
@@ -47,6 +49,15 @@ Theorem C19_float_array_round_trip : forall xs, forallb (fun x => disp_ok (snd x
   exists t, round_trip (JAF xs) = Some (t, RtOk (JAF (map (fun x => (arr_float (snd x), arr_float (snd x))) xs))).
 Proof. exact float_array_round_trip. Qed.
 
+(* GENERAL, by induction over the tree: every object whose fields are - at any depth - strings of printable ASCII, booleans, integers of
+   the whole i128 range, floats, null, typed arrays of every element kind and width, or objects of the same kind (distinct identifier
+   names at every level) is written to a text that the scanner reads back, field by field and level by level, to the same tree (floats
+   keep their text).  The balanced reader is shown to return exactly the nested block because the text of every value is neutral for it:
+   braces and brackets inside strings are not counted, every inner block closes before the outer one. *)
+Theorem C19_nested_round_trip : forall fs, tree_ok (JO fs) = true -> exists t, round_trip (JO fs) = Some (t, RtOk (norm (JO fs))).
+Proof. exact nested_round_trip. Qed.
+Theorem C19_nested_domain_inhabited : tree_ok tree_example = true /\ flat_ok tree_example = false /\ (3 <= depth tree_example)%nat.
+Proof. exact tree_example_ok. Qed.
 (* nested objects, arrays of every element kind and brackets inside strings: one representative tree, by evaluation *)
 Theorem C19_nested_example : exists t, round_trip nested_example = Some (t, RtOk nested_expected).
 Proof. exact nested_example_round_trips. Qed.
